@@ -425,12 +425,16 @@ def real_case(ctx, s, base_i, spans_i, args):
 
     ins = [(c, expected(i)) for i, c in enumerate(s) if not c.isspace()]
     out = []
-    for l in lines:
-        for sg in l.render(console, end=""):
-            out += [(c, sg.style) for c in sg.text if not c.isspace()]
+    inp = (s, base_i, spans_i, args)
+    try:
+        for l in lines:
+            for sg in l.render(console, end=""):
+                out += [(c, sg.style) for c in sg.text if not c.isspace()]
+    except Exception as e:  # noqa: BLE001 - a wrapped line that cannot be rendered is a failure of the property, not of the harness
+        ctx.check(False, "wrap:real-style", inp, f"rendering a line produced by Text.wrap raised {type(e).__name__}: {e}")
+        return
     eff_ov = ov or "fold"
     nowrap = bool(nw) or ov == "ignore"
-    inp = (s, base_i, spans_i, args)
     if (eff_ov == "fold" and not nowrap) or eff_ov == "ignore":
         ok = len(out) == len(ins) and all(a[0] == b[0] and a[1] == b[1] for a, b in zip(out, ins))
         ctx.check(ok, "wrap:real-style", inp, f"with real Style objects the rendered (char, Style) stream {[(c, str(x)) for c, x in out]!r} differs from the input's {[(c, str(x)) for c, x in ins]!r}")
